@@ -13,6 +13,7 @@
   (`text_builtins_no_hazard`, `substr_contract`, `hex_contract`, `abs_contract`, `pow_exact`).
 -/
 import BlocV.Model.Ops
+import BlocV.Model.Strtod
 
 namespace BlocV
 open Num
@@ -626,11 +627,318 @@ def biStr (fmtNum : F64 → Bytes) (args : List (Thunk m)) : m Val := do
     | .raw => do let s ← val.asRaw; return .str s
     | _ => argTypeErr
 
+/-! ### num / isnum (blocc/builtin/builtin_num.cpp, builtin_isnum.cpp) -/
+
+/-- `std::stod(s)` with the two `catch` clauses of builtin_num.cpp: `std::invalid_argument` →
+STRING_TO_NUM, `std::out_of_range` → OUT_OF_RANGE (Model/Strtod.lean: exact decimal/hexadecimal →
+binary64 conversion, glibc's ERANGE rule). -/
+def numOfString (s : Bytes) : Res F64 :=
+  match Strtod.stod s with
+  | .invalid => .err Gen.EXC_RT_STRING_TO_NUM
+  | .range => .err Gen.EXC_RT_OUT_OF_RANGE
+  | .val b => .ok b
+
+/-- `isnum` on a string: `try { std::stod(s); true } catch (...) { false }`. -/
+def isnumString (s : Bytes) : Bool :=
+  match Strtod.stod s with
+  | .val _ => true
+  | _ => false
+
+/-- `num(x)`: no argument or a null → null decimal; string / bytes through `std::stod`; decimal as it is;
+integer converted (`Numeric(int64_t)`: round to nearest); boolean 1.0 / 0.0; the real part of an
+imaginary is not modelled. -/
+def biNum (args : List (Thunk m)) : m Val := do
+  match args with
+  | [] => return .null Ty.num
+  | t0 :: _ =>
+    let val ← t0
+    if val.isNull then return .null Ty.num
+    match val.type.major with
+    | .str => do let s ← val.asStr; let d ← liftR (numOfString s); return .num d
+    | .raw => do let s ← val.asRaw; let d ← liftR (numOfString s); return .num d
+    | .num => do let d ← val.asNum; return .num d
+    | .int => do let i ← val.asInt; return .num (bits i.toFloat)
+    | .imag => liftR .unmodelled
+    | .bool => do let b ← val.asBool; return .num (if b then 0x3ff0000000000000 else 0)
+    | _ => argTypeErr
+
+/-- `isnum(x)`: false for a null and for any table; a string / bytes value is tested with `std::stod`
+(every exception → false); integer and decimal → true; every other type → false. Never fails. -/
+def biIsnum (args : List (Thunk m)) : m Val := do
+  match args with
+  | t0 :: _ =>
+    let val ← t0
+    if val.isNull || val.type.level != 0 then return .bool false
+    match val.type.major with
+    | .str => do let s ← val.asStr; return .bool (isnumString s)
+    | .raw => do let s ← val.asRaw; return .bool (isnumString s)
+    | .int | .num => return .bool true
+    | _ => return .bool false
+  | _ => argTypeErr
+
+/-! ### bool / isnull / typeof (builtin_bool.cpp, builtin_isnull.cpp, builtin_typeof.cpp) -/
+
+def biBool (args : List (Thunk m)) : m Val := do
+  match args with
+  | [] => return .null Ty.bool
+  | t0 :: _ =>
+    let val ← t0
+    if val.isNull then return .null Ty.bool
+    match val.type.major with
+    | .bool => do let b ← val.asBool; return .bool b
+    | .int => do let i ← val.asInt; return .bool (i != 0)
+    | .num => do let d ← val.asNum; return .bool (!isZero d)   -- `d != 0.0`: false for ±0.0 only (true for NaN)
+    | _ => argTypeErr
+
+def biIsnull (args : List (Thunk m)) : m Val := do
+  match args with
+  | t0 :: _ => do let val ← t0; return .bool val.isNull
+  | _ => argTypeErr
+
+/-- `Type::typeName(major)` (intrinsic_type.h). -/
+def majorName : Major → String
+  | .none => "undefined" | .bool => "boolean" | .int => "integer" | .num => "decimal" | .str => "string"
+  | .obj => "object" | .raw => "bytes" | .tup => "tuple" | .ptr => "pointer" | .imag => "complex"
+
+def biTypeof (args : List (Thunk m)) : m Val := do
+  match args with
+  | t0 :: _ => do
+    let val ← t0
+    if val.type.level > 0 then return .str "TABLE".toUTF8.toList
+    else return .str (majorName val.type.major).toUTF8.toList
+  | _ => argTypeErr
+
+/-! ### one-argument numeric functions -/
+
+/-- `sign(x)`: the result cell starts as a null decimal; integer → −1 / 0 / 1 (null integer stays a null
+integer); decimal → −1.0 / 0.0 / 1.0 by `<` and `>` (so NaN and −0.0 give 0.0), a null decimal → null decimal. -/
+def biSign (args : List (Thunk m)) : m Val := do
+  match args with
+  | t0 :: _ =>
+    let val ← t0
+    match val.type.major with
+    | .none => return .null Ty.num
+    | .int => if val.isNull then return .null Ty.int else do
+        let i ← val.asInt
+        return .int (if i < 0 then -1 else if i > 0 then 1 else 0)
+    | .num => if val.isNull then return .null Ty.num else do
+        let d ← val.asNum
+        return .num (if flt d 0 then 0xbff0000000000000 else if flt 0 d then 0x3ff0000000000000 else 0)
+    | _ => argTypeErr
+  | _ => argTypeErr
+
+/-- The shared body of floor, ceil, sqrt, exp, log, log10, sin, cos, tan, asin, acos, atan, sinh, cosh,
+tanh (their `value()` methods are the same text up to the libm function): untyped null → null decimal; a
+typed null integer / decimal / imaginary is returned as it is; integer → `fn((double)i)`; decimal →
+`fn(d)`; a non-null imaginary is not modelled; anything else FUNC_ARG_TYPE. `fn` is the platform's libm
+function on both sides (executed, not reasoned about). -/
+def mathMap (fn : Float → Float) (args : List (Thunk m)) : m Val := do
+  match args with
+  | t0 :: _ =>
+    let val ← t0
+    match val.type.major with
+    | .none => return .null Ty.num
+    | .int => if val.isNull then return val else do
+        let i ← val.asInt
+        return .num (bits (fn i.toFloat))
+    | .num => if val.isNull then return val else do
+        let d ← val.asNum
+        return .num (bits (fn (f d)))
+    | .imag => if val.isNull then return val else liftR .unmodelled
+    | _ => argTypeErr
+  | _ => argTypeErr
+
+/-- `round(x [, n])`: `floor(x * 10^n + 0.5) / 10^n` on doubles (`std::pow(10, n)`); the one-argument form
+has no NO_TYPE case (FUNC_ARG_TYPE for an untyped null), the two-argument form reads the digits first. -/
+def biRound (args : List (Thunk m)) : m Val := do
+  match args with
+  | [t0] =>
+    let val ← t0
+    match val.type.major with
+    | .int => if val.isNull then return .null Ty.num else do
+        let i ← val.asInt
+        return .num (bits (Float.floor (i.toFloat + 0.5)))
+    | .num => if val.isNull then return val else do
+        let d ← val.asNum
+        return .num (bits (Float.floor (f d + 0.5)))
+    | .imag => if val.isNull then return val else liftR .unmodelled
+    | _ => argTypeErr
+  | t0 :: t1 :: _ =>
+    let val ← t0
+    let a1 ← t1
+    let d : Float ← match a1.type.major with
+      | .none => pure 1.0
+      | .int => if !a1.isNull then do let n ← a1.asInt; pure (Float.pow 10.0 n.toFloat) else pure 1.0
+      | .num => if !a1.isNull then do
+          let x ← a1.asNum; let n ← castToInt x; pure (Float.pow 10.0 n.toFloat) else pure 1.0
+      | _ => argTypeErr
+    match val.type.major with
+    | .none => return .null Ty.num
+    | .int => if val.isNull then return .null Ty.num else do
+        let i ← val.asInt
+        return .num (bits (Float.floor (i.toFloat + 0.5)))
+    | .num => if val.isNull then return val else do
+        let x ← val.asNum
+        return .num (bits (Float.floor (f x * d + 0.5) / d))
+    | .imag => if val.isNull then return val else liftR .unmodelled
+    | _ => argTypeErr
+  | [] => argTypeErr
+
+/-! ### two-argument numeric functions: max, min, mod, atan2 -/
+
+/-- What the common prologue of builtin_max/min/mod/atan2.cpp leaves to the arithmetic. -/
+inductive NumPair
+  | ret (v : Val)
+  | ii (x y : Int64)
+  | id (x : Int64) (y : F64)
+  | di (x : F64) (y : Int64)
+  | dd (x y : F64)
+
+def isNumMajor (v : Val) : Bool := v.type.major == .int || v.type.major == .num
+
+/-- The prologue: a table operand → FUNC_ARG_TYPE; two number-typed operands of which one is null → a
+null (`intTy` when both are integers, else decimal); then the nested `switch`: untyped null first operand →
+null decimal; number × untyped null → `intTy`-or-decimal null by the first operand; foreign types →
+FUNC_ARG_TYPE. (`intTy` = integer for max/min/mod, decimal for atan2.) The typed accessors are reached
+only for non-null operands (Proofs/Lemmas/BuiltinCases.lean `numPair_no_hazard`). -/
+def numPair (intTy : Ty) (a0 a1 : Val) : Res NumPair :=
+  if a0.type.level > 0 || a1.type.level > 0 then argTypeErr
+  else if isNumMajor a0 && isNumMajor a1 && (a0.isNull || a1.isNull) then
+    .ok (.ret (.null (if a0.type.major == .int && a1.type.major == .int then intTy else Ty.num)))
+  else match a0.type.major with
+    | .none => .ok (.ret (.null Ty.num))
+    | .int =>
+      match a1.type.major with
+      | .none => .ok (.ret (.null intTy))
+      | .int => do let x ← a0.asInt; let y ← a1.asInt; pure (.ii x y)
+      | .num => do let x ← a0.asInt; let y ← a1.asNum; pure (.id x y)
+      | _ => argTypeErr
+    | .num =>
+      match a1.type.major with
+      | .none => .ok (.ret (.null Ty.num))
+      | .int => do let x ← a0.asNum; let y ← a1.asInt; pure (.di x y)
+      | .num => do let x ← a0.asNum; let y ← a1.asNum; pure (.dd x y)
+      | _ => argTypeErr
+    | _ => argTypeErr
+
+/-- `std::max<double>(a, b)` = `(a < b) ? b : a`; `std::min<double>(a, b)` = `(b < a) ? b : a`. -/
+def fmaxC (a b : F64) : F64 := if flt a b then b else a
+def fminC (a b : F64) : F64 := if flt b a then b else a
+
+def biMinMax (isMax : Bool) (args : List (Thunk m)) : m Val := do
+  match args with
+  | t0 :: t1 :: _ =>
+    let a0 ← t0
+    let a1 ← t1
+    let fm := if isMax then fmaxC else fminC
+    match ← liftR (numPair Ty.int a0 a1) with
+    | .ret v => return v
+    | .ii x y => return .int (if isMax then (if x < y then y else x) else (if y < x then y else x))
+    | .id x y => return .num (fm (bits x.toFloat) y)
+    | .di x y => return .num (fm x (bits y.toFloat))
+    | .dd x y => return .num (fm x y)
+  | _ => argTypeErr
+
+/-- `mod(x, y)`: integer × integer as the `%` operator (`Num.imod`: DIVIDE_BY_ZERO, −1 → 0); a decimal
+operand → `std::fmod` after the test `y == 0.0` (DIVIDE_BY_ZERO for ±0.0) — `Num.fmod` is the exact model. -/
+def biMod (args : List (Thunk m)) : m Val := do
+  match args with
+  | t0 :: t1 :: _ =>
+    let a0 ← t0
+    let a1 ← t1
+    match ← liftR (numPair Ty.int a0 a1) with
+    | .ret v => return v
+    | .ii x y => do let r ← liftR (imod x y); return .int r
+    | .id x y => if isZero y then rerr Gen.EXC_RT_DIVIDE_BY_ZERO else return .num (fmod (bits x.toFloat) y)
+    | .di x y => if y == 0 then rerr Gen.EXC_RT_DIVIDE_BY_ZERO else return .num (fmod x (bits y.toFloat))
+    | .dd x y => if isZero y then rerr Gen.EXC_RT_DIVIDE_BY_ZERO else return .num (fmod x y)
+  | _ => argTypeErr
+
+def biAtan2 (args : List (Thunk m)) : m Val := do
+  match args with
+  | t0 :: t1 :: _ =>
+    let a0 ← t0
+    let a1 ← t1
+    match ← liftR (numPair Ty.num a0 a1) with
+    | .ret v => return v
+    | .ii x y => return .num (bits (Float.atan2 x.toFloat y.toFloat))
+    | .id x y => return .num (bits (Float.atan2 x.toFloat (f y)))
+    | .di x y => return .num (bits (Float.atan2 (f x) y.toFloat))
+    | .dd x y => return .num (bits (Float.atan2 (f x) (f y)))
+  | _ => argTypeErr
+
+/-- `clamp(x, lo, hi)`: the type of the first argument selects the accessors of all three; a null among
+them returns the first argument as it is; `x < lo ? lo : x > hi ? hi : x` (a NaN `x` is returned). -/
+def biClamp (args : List (Thunk m)) : m Val := do
+  match args with
+  | t0 :: t1 :: t2 :: _ =>
+    let a0 ← t0
+    let a1 ← t1
+    let a2 ← t2
+    match a0.type.major with
+    | .none => return .null Ty.num
+    | .int =>
+      if a0.isNull || a1.isNull || a2.isNull then return a0 else do
+        let x ← a0.asInt; let y ← a1.asInt; let z ← a2.asInt
+        return .int (if x < y then y else if x > z then z else x)
+    | .num =>
+      if a0.isNull || a1.isNull || a2.isNull then return a0 else do
+        let x ← a0.asNum; let y ← a1.asNum; let z ← a2.asNum
+        return .num (if flt x y then y else if flt z x then z else x)
+    | _ => argTypeErr
+  | _ => argTypeErr
+
+/-- The constants `pi`, `ee`, `phi` (builtin_pi.h, builtin_ee.h, builtin_phi.h: 3.141592653589793,
+2.718281828459045, 1.618033988749895 as binary64). -/
+def constPi : F64 := 0x400921fb54442d18
+def constEe : F64 := 0x4005bf0a8b145769
+def constPhi : F64 := 0x3ff9e3779b97f4a8
+
 end
 
 end BlocV
 
 namespace BlocV
+
+/-- Dispatch of the built-ins added in round C10 (second table, so that the first keeps its shape):
+num, isnum, bool, isnull, typeof, sign, the fifteen one-argument libm functions, round, max, min, mod,
+atan2, clamp and the constants pi / ee / phi. Not modelled (`none`): random, read, readln, input,
+getsys, getenv (environment), error (needs the context's last error), ii / imag / iconj / iphase
+(imaginary numbers), tab / tup (Model/Interp.lean `biTab` / `biTup`, property C09), true / false / null
+(constants of the expression language, not calls). -/
+def evalBuiltinX {m : Type → Type} [Monad m] [MonadLiftT Res m] (name : String) (args : List (Thunk m)) : Option (m Val) :=
+  match name with
+  | "num" => some (biNum args)
+  | "isnum" => some (biIsnum args)
+  | "bool" => some (biBool args)
+  | "isnull" => some (biIsnull args)
+  | "typeof" => some (biTypeof args)
+  | "sign" => some (biSign args)
+  | "floor" => some (mathMap Float.floor args)
+  | "ceil" => some (mathMap Float.ceil args)
+  | "sqrt" => some (mathMap Float.sqrt args)
+  | "exp" => some (mathMap Float.exp args)
+  | "log" => some (mathMap Float.log args)
+  | "log10" => some (mathMap Float.log10 args)
+  | "sin" => some (mathMap Float.sin args)
+  | "cos" => some (mathMap Float.cos args)
+  | "tan" => some (mathMap Float.tan args)
+  | "asin" => some (mathMap Float.asin args)
+  | "acos" => some (mathMap Float.acos args)
+  | "atan" => some (mathMap Float.atan args)
+  | "sinh" => some (mathMap Float.sinh args)
+  | "cosh" => some (mathMap Float.cosh args)
+  | "tanh" => some (mathMap Float.tanh args)
+  | "round" => some (biRound args)
+  | "max" => some (biMinMax true args)
+  | "min" => some (biMinMax false args)
+  | "mod" => some (biMod args)
+  | "atan2" => some (biAtan2 args)
+  | "clamp" => some (biClamp args)
+  | "pi" => some (pure (.num constPi))
+  | "ee" => some (pure (.num constEe))
+  | "phi" => some (pure (.num constPhi))
+  | _ => none
 
 /-- Dispatch by keyword for the built-ins modelled so far; `none` = not modelled. -/
 def evalBuiltin {m : Type → Type} [Monad m] [MonadLiftT Res m] (fmtNum : Num.F64 → Bytes) (name : String) (args : List (Thunk m)) : Option (m Val) :=
@@ -658,6 +966,6 @@ def evalBuiltin {m : Type → Type} [Monad m] [MonadLiftT Res m] (fmtNum : Num.F
   | "str" => some (biStr fmtNum args)
   | "abs" => some (biAbs args)
   | "pow" => some (biPow args)
-  | _ => none
+  | _ => evalBuiltinX name args
 
 end BlocV
